@@ -550,6 +550,8 @@ def run_late(case, res):
             try:
                 from ..harness import SpyFuture
                 ins = [SpyFuture("in%d" % i) for i in range(3)]
+                for f in ins:
+                    f.set_running_or_notify_cancel()  # already running: the combinator's cancel requests are refused
                 out = {"zip": lambda: F.f_zip(*ins), "and": lambda: F.f_and(*ins), "or": lambda: F.f_or(*ins),
                        "sequence": lambda: F.f_sequence(ins)}[comb]()
                 if n_first:
